@@ -3,6 +3,7 @@ package gosym
 import (
 	"fmt"
 	"go/token"
+	"go/types"
 	"path/filepath"
 	"strings"
 
@@ -231,6 +232,16 @@ func (in *Interp) osCall(fr *frame, fn *ssa.Function, full string, args []Value,
 		m.vol[to] = ino
 		delete(m.vol, from)
 		return &Iface{}, true
+	case "os.Stat", "os.Lstat":
+		name := str(args[0])
+		if in.fsPoint("stat " + name) {
+			return Tuple{&Iface{}, in.fsErr("stat "+name+": injected fault", false)}, true
+		}
+		if _, ok := m.vol[name]; !ok && !m.isDir(name) {
+			return Tuple{&Iface{}, in.fsErr("stat "+name+": no such file or directory", true)}, true
+		}
+		var st Value = zero(in.tcache.named("os", "fileStat"))
+		return Tuple{&Iface{T: types.NewPointer(in.tcache.named("os", "fileStat")), V: &st}, &Iface{}}, true
 	case "os.ReadFile":
 		in.fail("unsupported", "os.ReadFile (use vf.FS to inspect the model)")
 	}
